@@ -11,6 +11,7 @@ Proofs: Proofs/ParseSeqExpr, Proofs/ParseSeq (tree), Proofs/EvalOrder (values).
 import EvalexprVerif.Proofs.ParseSeq
 import EvalexprVerif.Proofs.EvalOrder
 import EvalexprVerif.Proofs.AgreeOperator
+import EvalexprVerif.Proofs.LexRoundtrip
 
 namespace Evalexpr.Spec.C05
 open Evalexpr Evalexpr.Spec
@@ -18,6 +19,14 @@ open Evalexpr Evalexpr.Spec
 /-- **C05 (tree)** -/
 theorem C05_tree (l : Level) (h : levelWf l = true) :
     tokensToOperatorTree (renderLevel l) = .ok (levelTree l) := Evalexpr.Spec.C05_tree l h
+
+/-- **C05 (string level)**: any spelling of the level's tokens with any admissible gaps -/
+theorem C05_string (l : Level) (h : levelWf l = true) (ps : List (Gap × PTok)) (g : Gap)
+    (hts : ps.map (·.2.tok) = renderLevel l) (hp : ∀ p ∈ ps, p.2.Printable) (ha : Admissible ps g) :
+    buildOperatorTree (renderFrom ps g) = .ok (levelTree l) := by
+  unfold buildOperatorTree
+  rw [Evalexpr.Spec.C07_roundtrip ps g hp ha, hts]
+  exact C05_tree l h
 
 /-- `,` binds tighter than `;`, both weaker than every other operator -/
 theorem C05_tables :
